@@ -6,6 +6,10 @@ export PIP_NO_INDEX=1
 if ! /venv/bin/python -c "import hypothesis" 2>/dev/null; then
   /venv/bin/pip install --no-index --find-links /opt/veriftools/wheels hypothesis
 fi
+# atheris (coverage-guided fuzzing, C15/toml_fuzz) goes beside the repository's packages, from the wheelhouse
+if ! PYTHONPATH=.deps /venv/bin/python -c "import atheris" 2>/dev/null; then
+  /venv/bin/pip install --no-index --find-links /opt/veriftools/wheels --target .deps atheris
+fi
 /venv/bin/python - <<'PY'
 import hypothesis, numpy, scipy, astropy, dask, h5py, pydantic
 import nuspacesim
